@@ -34,6 +34,13 @@ negative strides, read-only, broadcast) x requires_grad x dtype as direct attrib
 nested object. A KEY-SPELLING family uses dict keys and attribute names with dots (also one key being a prefix of another up
 to a dot), spaces, unicode, digits only, the empty string, look-alikes of the serializer's suffixes, punctuation, 200
 characters, with values of every kind that needs a side flag or a node, so that a flag attached to the wrong key shows.
+A MEMORY-ALIASING family stores two DISTINCT values that view the same memory in one graph: every ordered pair (with the
+diagonal) of the members of five bases -- a trainable tensor {itself, .detach(), .data, view_as, [:], view(-1), t(), two row
+blocks, an int32 bit-cast, .numpy()}, an nn.Parameter (trainable / frozen) {itself, .data, .detach(), views}, a plain tensor
+{itself, nn.Parameter(w), a requires_grad alias, ...}, an ndarray {itself, views, slices, transposed, reshaped, an int64 view,
+torch.from_numpy(w) without / with requires_grad} -- in every placement {two attributes, list, tuple, dict, attribute +
+attribute of a nested object}, both stores: each of the two values must load back equal to ITSELF (kind, Parameter-vs-Tensor,
+dtype, shape, values, requires_grad); whether they still share memory after load is counted, not claimed.
 
 Excluded from the input alphabet exactly as the quantifier says: reserved metadata names, names
 containing '/' (and what zarr treats as path syntax: '\\', '.', '..'), non-native byte order and
@@ -60,7 +67,9 @@ CLAIM = (
     "through the full product of store x compression level x path type x write mode, containers of 9..101 elements are stored "
     "for every container and element kind, and one live object is driven through every history of saves (new target, mode 'o') "
     "(also delete-then-write onto the same path), loads of the previous target and in-place mutations up to depth 3 (quick) / 4 "
-    "(thorough) with load(target) executed and compared to a deep-copy model after every save and earlier targets re-read. Exploration is the right level: the "
+    "(thorough) with load(target) executed and compared to a deep-copy model after every save and earlier targets re-read; every ordered pair of distinct values "
+    "that share memory (trainable tensor / nn.Parameter / plain tensor / ndarray with their detached, .data, same-geometry, re-shaped, transposed, offset, "
+    "bit-cast, numpy and from_numpy aliases) is stored in one graph in every placement and each value must come back as itself. Exploration is the right level: the "
     "property is a statement about a lattice of value kinds and configurations, each point decided exactly by one execution."
 )
 NOTE = (
@@ -71,7 +80,9 @@ NOTE = (
 RULE = (
     "Full enumeration of the graph families of checks/_serial.grammar(tier) x {zip, dir} with three relations per point, plus "
     "core graphs x {zip, dir} x compression {None,0..9} x path {str, Path} x mode {w, o, o-onto-existing}, plus every event "
-    "sequence up to the stated depth that ends in a save on four live objects (sequences with a non-applicable event are dropped and counted). A point is "
+    "sequence up to the stated depth that ends in a save on four live objects (sequences with a non-applicable event are dropped and counted), plus every ordered "
+    "pair of memory-sharing values of checks/_serial.MEM_BASES x placement x {zip, dir} (quick: all pairs as two attributes and in a list, the pairs containing the "
+    "base value itself in a dict and across a nested object; tuple placement and the fixed point are left to the thorough tier). A point is "
     "non-trivial when the loaded object has at least one attribute to compare; distinct = distinct (graph descriptor, store[, configuration])."
 )
 
@@ -228,6 +239,97 @@ def eval_cycle(item, seed=0, scratch="/tmp"):
     t.extra["cycles_refused_loudly" if outcome[0] != "round_trips" else "cycles_saved_and_loaded"] += 1
     for cls, msg in fails:
         t.fail(cls, {"kind": "cycle", "name": item["name"], "graph": item["g"], "store": item["store"], "seed": seed}, msg)
+    return t
+
+
+# ----------------------------------------------------------------------------- memory aliasing between values of one graph
+# Two DISTINCT values that view the same memory (S.MEM_BASES: a trainable tensor and its .detach() / .data, an nn.Parameter
+# and its .data, same-geometry / re-shaped / transposed / offset / bit-cast views, an ndarray and torch.from_numpy of it, ...)
+# stored in one graph. Oracle: the ordinary structural equality per value against a fresh build (kind, Parameter-vs-Tensor,
+# dtype, shape, values, requires_grad). Whether the two still share memory after load is counted, not claimed.
+def mem_placements(quick):
+    # tuples share the list decoder: thorough tier only (as in family B of the grammar)
+    return [p for p in S.MEM_PLACEMENTS if not (quick and p == "tuple")]
+
+
+MEM_FULL_PRODUCT_QUICK = ("two_attributes", "list")
+
+
+def mem_items(quick):
+    """thorough: every ordered pair x every placement, with the fixed point. quick (a sub-lattice): every ordered pair as two
+    attributes and as two list entries; in a dict and as attribute + attribute of a nested object the pairs that contain the
+    base value itself (both orders); no tuple placement, no fixed point."""
+    out = []
+    for b, x, y in S.mem_pairs():
+        for pl in mem_placements(quick):
+            if quick and pl not in MEM_FULL_PRODUCT_QUICK and "self" not in (x, y):
+                continue
+            out.append({"base": b, "first": x, "second": y, "placement": pl, "fixed_point": not quick})
+    return out
+
+
+def run_memalias(item, seed, scratch):
+    """(fails, outcome per store, round trips, [input shares memory, loaded pairs that still share memory])."""
+    base, first, second, placement = item["base"], item["first"], item["second"], item["placement"]
+    label = f"memory-aliasing graph {{{S.mem_show(base, first, second, placement)}}}"
+    tag = {"family": "memory_aliasing", "base": base}
+    fails, outcome, loaded, rts = [], {}, {}, 0
+    pair = S.mem_pair_of(S.mem_build(base, first, second, placement, seed), placement)
+    shares = [int(pair is not None and S.mem_shares(*pair)), 0]
+    with S.Workdir(scratch, "C01") as wd:
+        for store in STORES:
+            st, y = S.save_load(S.mem_build(base, first, second, placement, seed), wd, store, name="a")
+            rts += 1
+            if st != "ok":
+                fails.append((dict(tag, relation="load_save_equals_input", symptom=st, exc=type(y).__name__), f"store={store} {label}: {'save(x)' if st == 'save_raises' else 'load(save(x))'} raised {type(y).__name__}: {str(y)[:200]} (each of the two values alone is saved and loaded)"))
+                outcome[store] = [st, type(y).__name__]
+                continue
+            outcome[store] = S.summary(y)
+            d1 = S.diff(S.mem_build(base, first, second, placement, seed), y, slack=True)
+            if d1:
+                fails.append((S.cls_of(d1[0], relation="load_save_equals_input", **tag), f"store={store} {label}: load(save(x)) differs from x: {S.fmt(d1)}"))
+                continue
+            loaded[store] = y
+            lp = S.mem_pair_of(y, placement)
+            shares[1] += int(lp is not None and S.mem_shares(*lp))
+            if item.get("fixed_point"):
+                st2, z = S.save_load(y, wd, store, name="b")
+                rts += 1
+                if st2 != "ok":
+                    fails.append((dict(tag, relation="fixed_point", symptom=st2, exc=type(z).__name__), f"store={store} {label}: saving / reloading the loaded object raised {type(z).__name__}: {str(z)[:200]}"))
+                    continue
+                d3 = S.diff(y, z, slack=False)
+                if d3:
+                    fails.append((S.cls_of(d3[0], relation="fixed_point", **tag), f"store={store} {label}: load(save(y)) differs from y = load(save(x)): {S.fmt(d3)}"))
+        if len(loaded) == 2:
+            d2 = S.diff(loaded["zip"], loaded["dir"], slack=False)
+            if d2:
+                fails.append((S.cls_of(d2[0], relation="zip_equals_dir", **tag), f"{label}: zip result (expected) differs from dir result (observed): {S.fmt(d2)}"))
+    folded, seen = [], {}
+    for cls, msg in fails:  # the same failure class in both stores is one failing point
+        k = repr(sorted(cls.items(), key=repr))
+        if k in seen:
+            folded[seen[k]] = (cls, folded[seen[k]][1] + " || " + msg[:400])
+        else:
+            seen[k] = len(folded)
+            folded.append((cls, msg))
+    return folded, outcome, rts, shares
+
+
+def eval_memalias(item, seed=0, scratch="/tmp"):
+    t = Tally()
+    fails, outcome, rts, shares = run_memalias(item, seed, scratch)
+    for store in STORES:
+        t.case(key=["memalias", item["base"], item["first"], item["second"], item["placement"], store], nontrivial=True, outcome=outcome.get(store))
+    t.extra["memalias_graphs"] += 1
+    t.extra["memalias_graphs_whose_two_values_share_memory"] += shares[0]
+    t.extra["memalias_loaded_graphs_whose_two_values_still_share_memory"] += shares[1]
+    t.extra["roundtrips"] += rts
+    for cls, msg in fails:
+        t.fail(cls, dict(item, kind="memalias", seed=seed), msg)
+    if item["first"] == "self" and item["second"] == "detach":
+        t.sample({"family": "memory_aliasing", "graph": S.mem_show(item["base"], item["first"], item["second"], item["placement"]), "stores": list(STORES),
+                  "observed": "each value equal to itself" if not fails else f"{len(fails)} failure(s)"}, cap=1)
     return t
 
 
@@ -973,6 +1075,8 @@ def run(ctx):
     ritems = [{"hook": h, "store": st, "companion_store": cs, "layout": lay} for h in REENTRANT_HOOKS for st in STORES for cs in STORES
               for lay in (["same_layout"] if ctx.quick else ["same_layout", "other_layout"])]
     merged_r = ctx.pmap(eval_reentrant, ritems, chunk=1, label="re-entrant calls", seed=ctx.seed, scratch=ctx.scratch)
+    maitems = mem_items(ctx.quick)
+    merged_ma = ctx.pmap(eval_memalias, maitems, label="memory aliasing", seed=ctx.seed, scratch=ctx.scratch)
     hdepth = 3 if ctx.quick else 4
     hitems = enumerate_histories(hdepth, ctx.quick)
     merged_h = ctx.pmap(eval_history, hitems, label="histories", seed=ctx.seed, scratch=ctx.scratch)
@@ -992,6 +1096,11 @@ def run(ctx):
                               "as_attribute_came_back_as_the_subclass": int(merged.extra["container_subclass_as_attribute_came_back_as_the_subclass"])},
         aliasing={"graphs": [S.show(g)[:160] for g, _ in S._aliasing_graphs()], "groups_of_aliased_occurrences_loaded": int(merged.extra["alias_groups_loaded"]),
                   "groups_still_one_object_after_load": int(merged.extra["alias_groups_still_one_object_after_load"])},
+        memory_aliasing={"bases_and_members": S.MEM_BASES, "ordered_pairs_with_diagonal": len(S.mem_pairs()), "placements": mem_placements(ctx.quick), "stores": list(STORES),
+                         "pairs_per_placement": {pl: sum(1 for it in maitems if it["placement"] == pl) for pl in mem_placements(ctx.quick)},
+                         "relations": ["load_save_equals_input", "zip_equals_dir"] + ([] if ctx.quick else ["fixed_point"]), "graphs": int(merged_ma.extra["memalias_graphs"]),
+                         "graphs_whose_two_values_share_memory": int(merged_ma.extra["memalias_graphs_whose_two_values_share_memory"]),
+                         "loaded_graphs_whose_two_values_still_share_memory": int(merged_ma.extra["memalias_loaded_graphs_whose_two_values_still_share_memory"])},
         cycles={"graphs": [n for n, _ in cyc], "cases": len(cyc_items), "refused_loudly": int(merged_c.extra["cycles_refused_loudly"]), "saved_and_loaded": int(merged_c.extra["cycles_saved_and_loaded"])},
         global_modes={"modes": S.GLOBAL_MODES, "save_mode_x_load_mode": [list(x) for x in mode_phases(ctx.quick)], "graphs": {k: S.show(v)[:200] for k, v in MODE_GRAPHS.items()},
                       "points": int(merged_m.extra["mode_points"]), "points_where_a_warning_became_an_error": int(merged_m.extra["mode_points_where_a_warning_became_an_error"])},
@@ -1028,6 +1137,8 @@ def run(ctx):
         raise Broken(f"failed-operation / re-entrant enumeration incomplete: {dict(merged_f.extra)}, {dict(merged_r.extra)}")
     if int(merged_f.extra["failed_save_histories_where_the_leaf_was_saved_after_all"]) == int(merged_f.extra["failed_save_histories"]):
         raise Broken("no unsaveable leaf made save raise: the failed-save histories are vacuous")
+    if int(merged_ma.extra["memalias_graphs"]) != len(maitems) or int(merged_ma.extra["memalias_graphs_whose_two_values_share_memory"]) != len(maitems) or len(maitems) < 300:
+        raise Broken(f"memory-aliasing enumeration degenerate: {dict(merged_ma.extra)} of {len(maitems)} graphs (every pair must share memory in the input)")
     if int(merged_c.extra["cycles"]) != len(cyc_items) or int(merged_m.extra["mode_points"]) != len(mode_items) * len(STORES):
         raise Broken(f"cycle / global-mode enumeration incomplete: {merged_c.extra['cycles']} of {len(cyc_items)}, {merged_m.extra['mode_points']} of {len(mode_items) * len(STORES)}")
     if not need <= covered:
@@ -1057,6 +1168,16 @@ def replay(ctx, case):
             ctx.fail(cls, case, msg)
         print(f"  hook={case['hook']} outer store={case['store']} companion store={case['companion_store']} layout={case['layout']}: loaded {str(outcome)[:500]}")
         print(f"  expected: the outer load equals the in-memory graph with the companion attached; observed: {len(fails)} failure(s)")
+        return
+    if case["kind"] == "memalias":
+        fails, outcome, rts, shares = run_memalias(case, seed, ctx.scratch)
+        for cls, msg in fails:
+            ctx.fail(cls, case, msg)
+        print(f"  graph: {S.mem_show(case['base'], case['first'], case['second'], case['placement'])}  (seed {seed})")
+        print(f"  input : {str(S.summary(S.mem_build(case['base'], case['first'], case['second'], case['placement'], seed)))[:400]}")
+        for store in STORES:
+            print(f"  store={store}: loaded = {str(outcome.get(store))[:400]}")
+        print(f"  expected: each of the two memory-sharing values loads back equal to itself in both stores; observed: {len(fails)} failure(s) in {rts} round trip(s)")
         return
     if case["kind"] == "cycle":
         fails, outcome = run_cycle(case, seed, ctx.scratch)
